@@ -314,16 +314,11 @@ Proof.
   destruct P3 as [ngp p3]. cbn [snd] in L3.
   pose proof (scan_word_len' p3) as L4. destruct (scan_word is_word_char p3) as [nm p4]. cbn [snd] in L4.
   pose proof (skipn_len 2 p4) as SK.
-  assert (K : forall items', padv (if longer p4 1 && hd_is p4 58 && nth_is 1 p4 93
-              then (if useRE2 o then cs_next rec so ng (skipn 2 p4) chprev inrange items' sub
-                    else cs_generic rec so ng chprev inrange first sub 91 false (skipn 2 p4) items')
-              else cs_generic rec so ng chprev inrange first sub 91 false p1 items') m).
-  { intros items'. destruct (longer p4 1 && hd_is p4 58 && nth_is 1 p4 93).
-    - destruct (useRE2 o); [apply cs_next_adv; lia | apply cs_generic_adv; lia].
-    - apply cs_generic_adv; lia. }
-  destruct (negb so && useRE2 o).
-  - destruct (posix_index nm); cbn [pbind]; [apply K | unfold padv; cbn [length] in *; lia].
-  - cbn [pbind]. apply K.
+  destruct (longer p4 1 && hd_is p4 58 && nth_is 1 p4 93).
+  - destruct (useRE2 o); [|apply cs_generic_adv; lia].
+    destruct (negb so); cbn [pbind]; [|apply cs_next_adv; lia].
+    destruct (posix_index nm); cbn [pbind]; [apply cs_next_adv; lia | unfold padv; cbn [length] in *; lia].
+  - apply cs_generic_adv; lia.
 Qed.
 
 Lemma cs_body_adv so o ng chprev inrange first sub p its :
